@@ -39,7 +39,18 @@ def run_shard(pid: str, tier: str, shard: int, nshards: int, out: Path) -> int:
                 raise
             tb = traceback.format_exc()
             sys.stderr.write(tb)
-            ctx.mark_inconclusive(f"harness error in shard {shard}: {exc!r} :: {tb[-600:]}")
+            frames = traceback.extract_tb(exc.__traceback__)
+            repo = str(env.REPO)
+            inner_py = [f for f in frames if not f.filename.startswith("<")]
+            if inner_py and inner_py[-1].filename.startswith(repo):
+                # the library itself raised on an input the same workload handles on the unchanged tree: that is an
+                # observation about the tree, not a harness failure (safety net; the modules guard most calls themselves)
+                f = inner_py[-1]
+                ctx.violation("library-raised-unexpectedly",
+                              f"{type(exc).__name__}: {exc} at {os.path.relpath(f.filename, repo)}:{f.lineno} ({f.name}) in shard {shard}",
+                              {"kind": "shard-crash", "shard": shard, "nshards": nshards, "tier": tier, "traceback": tb[-1500:]})
+            else:
+                ctx.mark_inconclusive(f"harness error in shard {shard}: {exc!r} :: {tb[-600:]}")
     faulthandler.cancel_dump_traceback_later()
     out.write_text(json.dumps(ctx.to_partial()))
     return 0
@@ -101,7 +112,19 @@ def run_replay(pid: str, path: Path) -> int:
     if not hasattr(module, "replay"):
         print(f"INCONCLUSIVE property={pid} no replay function")
         return 2
-    module.replay(ctx, body["case"])
+    if body["case"].get("kind") == "shard-crash":
+        # re-run the whole shard that crashed inside the library
+        c = body["case"]
+        budget = getattr(module, "BUDGET", {}).get(c["tier"], 60)
+        ctx = Ctx(pid, c["tier"], int(body.get("seed", 0)), c["shard"], c["nshards"], budget_s=budget, replay_mode=False)
+        try:
+            module.run(ctx)
+        except Exception as exc:
+            print(f"VIOLATION property={pid} replay={path}")
+            print(f"  mechanism=library-raised-unexpectedly: {type(exc).__name__}: {exc}")
+            return 1
+    else:
+        module.replay(ctx, body["case"])
     if ctx.violations:
         for v in ctx.violations:
             print(f"VIOLATION property={pid} replay={path}")
